@@ -28,6 +28,8 @@ theorem capOk_mono {cap : Option Nat} {m n : Nat} (h : m ≤ n) (hn : capOk cap 
   | none => rfl
   | some c => simp [capOk] at *; omega
 
+instance (xs : Big) : Decidable (AllLt xs) := by unfold AllLt; infer_instance
+
 theorem AllLt_nil : AllLt [] := by intro x hx; cases hx
 
 theorem AllLt_cons {x : Nat} {xs : Big} : AllLt (x :: xs) ↔ x < B ∧ AllLt xs := by
@@ -724,5 +726,1464 @@ theorem cmpRev_spec {l1 l2 : List Nat} (h1 : AllLt l1) (h2 : AllLt l2) (hl : l1.
           · rw [Nat.compare_eq_lt.mpr h, Nat.compare_eq_lt.mpr (by omega)]
           · rw [Nat.compare_eq_eq.mpr h, Nat.compare_eq_eq.mpr (by omega)]
           · rw [Nat.compare_eq_gt.mpr h, Nat.compare_eq_gt.mpr (by omega)]
+
+theorem bigCompare_spec {x y : Big} (hx : AllLt x) (hy : AllLt y)
+    (nx : isNormalized x = true) (ny : isNormalized y = true) :
+    bigCompare x y = compare (toNat x) (toNat y) := by
+  unfold bigCompare
+  have bx := toNat_lt hx
+  have by' := toNat_lt hy
+  split
+  · next h =>
+    have hne : y ≠ [] := by intro h0; subst h0; simp at h
+    have := toNat_ge_of_normalized ny hne
+    have := Bpow_le (show x.length ≤ y.length - 1 by omega)
+    symm; rw [Nat.compare_eq_lt]; omega
+  · split
+    · next h =>
+      have hne : x ≠ [] := by intro h0; subst h0; simp at h
+      have := toNat_ge_of_normalized nx hne
+      have := Bpow_le (show y.length ≤ x.length - 1 by omega)
+      symm; rw [Nat.compare_eq_gt]; omega
+    · next h1 h2 =>
+      have := cmpRev_spec (AllLt_reverse.mpr hx) (AllLt_reverse.mpr hy)
+        (by simp only [List.length_reverse]; omega)
+      simpa only [List.reverse_reverse] using this
+
+-- ---------------------------------------------------------------- shifts
+theorem shl64_eq (x : Nat) {n : Nat} (hn : n < 64) : shl64 x n = (x * 2 ^ n) % B := by
+  unfold shl64; rw [Nat.mod_eq_of_lt hn]
+
+theorem shr64_eq (x : Nat) {n : Nat} (hn : n < 64) : shr64 x n = x / 2 ^ n := by
+  unfold shr64; rw [Nat.mod_eq_of_lt hn]
+
+theorem two_pow_split {n : Nat} (hn : n ≤ 64) : 2 ^ (64 - n) * 2 ^ n = B := by
+  rw [← Nat.pow_add, B_eq]; congr 1; omega
+
+/-- one output limb of `shlBits` -/
+theorem shl_limb {n : Nat} (h0 : 0 < n) (hn : n < 64) (x : Nat) {prev : Nat} (hp : prev < B) :
+    shl64 x n ||| shr64 prev (64 - n) = (x % 2 ^ (64 - n)) * 2 ^ n + prev / 2 ^ (64 - n) := by
+  rw [shl64_eq x hn, shr64_eq prev (by omega : 64 - n < 64)]
+  have hB := two_pow_split (Nat.le_of_lt hn)
+  have hlt : prev / 2 ^ (64 - n) < 2 ^ n := by
+    apply Nat.div_lt_of_lt_mul; rw [hB]; exact hp
+  rw [← hB, Nat.mul_mod_mul_right, Nat.mul_comm (x % 2 ^ (64 - n)) (2 ^ n)]
+  exact (Nat.two_pow_add_eq_or_of_lt hlt _).symm
+
+theorem shl_limb_lt {n : Nat} (hn : n ≤ 64) (x : Nat) {prev : Nat} (hp : prev < B) :
+    (x % 2 ^ (64 - n)) * 2 ^ n + prev / 2 ^ (64 - n) < B := by
+  have hB := two_pow_split hn
+  have hlt : prev / 2 ^ (64 - n) < 2 ^ n := by
+    apply Nat.div_lt_of_lt_mul; rw [hB]; exact hp
+  have hm : x % 2 ^ (64 - n) < 2 ^ (64 - n) := Nat.mod_lt _ (Nat.two_pow_pos _)
+  have : (x % 2 ^ (64 - n) + 1) * 2 ^ n ≤ 2 ^ (64 - n) * 2 ^ n := Nat.mul_le_mul_right _ hm
+  rw [Nat.add_mul, hB] at this
+  omega
+
+theorem shl_arith (P Q x d m a Bl t T p : Nat) (hx : x = Q * d + m)
+    (ih : a + Bl * t = T * P + d) :
+    m * P + p + (Q * P) * a + Bl * (Q * P) * t = (x + (Q * P) * T) * P + p := by
+  subst hx
+  have e : Q * P * (a + Bl * t) = Q * P * (T * P + d) := by rw [ih]
+  linarith [e]
+
+theorem shlBitsAux_length (n : Nat) (xs : List Nat) (prev : Nat) :
+    (shlBitsAux n prev xs).1.length = xs.length := by
+  induction xs generalizing prev with
+  | nil => rfl
+  | cons x xs ih => simp [shlBitsAux, ih]
+
+theorem shlBitsAux_snd_lt {n : Nat} {xs : List Nat} (h : AllLt xs) {prev : Nat} (hp : prev < B) :
+    (shlBitsAux n prev xs).2 < B := by
+  induction xs generalizing prev with
+  | nil => exact hp
+  | cons x xs ih =>
+    rw [AllLt_cons] at h
+    simp only [shlBitsAux]
+    exact ih h.2 h.1
+
+theorem shlBitsAux_allLt {n : Nat} (h0 : 0 < n) (hn : n < 64) {xs : List Nat} (h : AllLt xs)
+    {prev : Nat} (hp : prev < B) : AllLt (shlBitsAux n prev xs).1 := by
+  induction xs generalizing prev with
+  | nil => exact AllLt_nil
+  | cons x xs ih =>
+    rw [AllLt_cons] at h
+    simp only [shlBitsAux]
+    refine AllLt_cons.mpr ⟨?_, ih h.2 h.1⟩
+    rw [shl_limb h0 hn x hp]
+    exact shl_limb_lt (Nat.le_of_lt hn) x hp
+
+theorem shlBitsAux_spec {n : Nat} (h0 : 0 < n) (hn : n < 64) {xs : List Nat} (h : AllLt xs)
+    {prev : Nat} (hp : prev < B) :
+    toNat (shlBitsAux n prev xs).1 + B ^ xs.length * ((shlBitsAux n prev xs).2 / 2 ^ (64 - n))
+      = toNat xs * 2 ^ n + prev / 2 ^ (64 - n) := by
+  induction xs generalizing prev with
+  | nil => simp [shlBitsAux, toNat]
+  | cons x xs ih =>
+    rw [AllLt_cons] at h
+    simp only [shlBitsAux, toNat, List.length_cons, Nat.pow_succ]
+    rw [shl_limb h0 hn x hp]
+    have hB := two_pow_split (Nat.le_of_lt hn)
+    rw [← hB]
+    have := shl_arith (2 ^ n) (2 ^ (64 - n)) x (x / 2 ^ (64 - n)) (x % 2 ^ (64 - n))
+      (toNat (shlBitsAux n x xs).1) ((2 ^ (64 - n) * 2 ^ n) ^ xs.length)
+      ((shlBitsAux n x xs).2 / 2 ^ (64 - n)) (toNat xs) (prev / 2 ^ (64 - n))
+      (Nat.div_add_mod x _).symm (by rw [hB]; exact ih h.2 h.1)
+    exact this
+
+theorem shlBits_core {n : Nat} (h0 : 0 < n) (hn : n < 64) {x : Big} (hx : AllLt x) :
+    (shlBitsAux n 0 x).1.length = x.length ∧
+    toNat (shlBitsAux n 0 x).1 + B ^ x.length * shr64 (shlBitsAux n 0 x).2 (64 - n)
+      = toNat x * 2 ^ n ∧
+    AllLt (shlBitsAux n 0 x).1 ∧ shr64 (shlBitsAux n 0 x).2 (64 - n) < B := by
+  refine ⟨shlBitsAux_length _ _ _, ?_, shlBitsAux_allLt h0 hn hx B_pos, ?_⟩
+  · rw [shr64_eq _ (by omega : 64 - n < 64)]
+    have := shlBitsAux_spec h0 hn hx B_pos
+    simpa using this
+  · rw [shr64_eq _ (by omega : 64 - n < 64)]
+    exact Nat.lt_of_le_of_lt (Nat.div_le_self _ _) (shlBitsAux_snd_lt hx B_pos)
+
+theorem shlBits_spec {cap : Option Nat} {x r : Big} {n : Nat} (h0 : 0 < n) (hn : n < 64)
+    (hx : AllLt x) (hcap : capOk cap x.length = true) (h : shlBits cap x n = some r) :
+    toNat r = toNat x * 2 ^ n ∧ AllLt r ∧ capOk cap r.length = true ∧
+    x.length ≤ r.length ∧ r.length ≤ x.length + 1 ∧
+    (r.length = x.length + 1 → B ^ x.length ≤ toNat r) := by
+  obtain ⟨h1, h2, h3, h4⟩ := shlBits_core h0 hn hx
+  unfold shlBits at h
+  simp only at h
+  split at h
+  · next hz =>
+    obtain ⟨rfl, hc⟩ := vecTryPush_some h
+    rw [h1] at hc
+    have hv : toNat ((shlBitsAux n 0 x).1 ++ [shr64 (shlBitsAux n 0 x).2 (64 - n)])
+        = toNat x * 2 ^ n := by
+      rw [toNat_append, toNat_singleton, h1]; exact h2
+    refine ⟨hv, ?_, ?_, ?_, ?_, ?_⟩
+    · exact AllLt_append.mpr ⟨h3, AllLt_singleton.mpr h4⟩
+    · rw [List.length_append, h1]; exact hc
+    · rw [List.length_append, h1]; simp
+    · rw [List.length_append, h1]; simp
+    · intro _
+      rw [hv, ← h2]
+      have : B ^ x.length * 1 ≤ B ^ x.length * shr64 (shlBitsAux n 0 x).2 (64 - n) :=
+        Nat.mul_le_mul_left _ (Nat.pos_of_ne_zero hz)
+      omega
+  · next hz =>
+    simp only [ne_eq, Decidable.not_not] at hz
+    simp only [Option.some.injEq] at h
+    subst h
+    rw [hz] at h2
+    refine ⟨by simpa using h2, h3, by rw [h1]; exact hcap, by omega, by omega, by omega⟩
+
+theorem shlBits_none_iff {cap : Option Nat} {x : Big} {n : Nat} (h0 : 0 < n) (hn : n < 64)
+    (hx : AllLt x) :
+    shlBits cap x n = none ↔
+      capOk cap (x.length + 1) = false ∧ B ^ x.length ≤ toNat x * 2 ^ n := by
+  obtain ⟨h1, h2, h3, h4⟩ := shlBits_core h0 hn hx
+  have hlt := toNat_lt h3
+  rw [h1] at hlt
+  unfold shlBits
+  simp only
+  split
+  · next hz =>
+    rw [vecTryPush_none, h1]
+    have : B ^ x.length * 1 ≤ B ^ x.length * shr64 (shlBitsAux n 0 x).2 (64 - n) :=
+      Nat.mul_le_mul_left _ (Nat.pos_of_ne_zero hz)
+    constructor
+    · intro h; exact ⟨h, by omega⟩
+    · intro h; exact h.1
+  · next hz =>
+    simp only [ne_eq, Decidable.not_not] at hz
+    rw [hz] at h2
+    simp only [reduceCtorEq, false_iff, not_and, Nat.not_le]
+    intro _; omega
+
+theorem shlLimbs_spec {cap : Option Nat} {x r : Big} {n : Nat} (hx : AllLt x)
+    (h : shlLimbs cap x n = some r) :
+    toNat r = toNat x * B ^ n ∧ AllLt r ∧ capOk cap r.length = true ∧
+    (x ≠ [] → r.length = n + x.length) ∧ (x = [] → r = []) := by
+  unfold shlLimbs at h
+  split at h
+  · simp at h
+  · next hc =>
+    simp only [Bool.not_eq_eq_eq_not, Bool.not_true, Bool.not_eq_false] at hc
+    split at h
+    · next he =>
+      simp only [Option.some.injEq] at h
+      subst h
+      simp only [List.isEmpty_iff] at he
+      subst he
+      refine ⟨by simp [toNat], hx, capOk_mono (by simp) hc, by simp, by simp⟩
+    · next he =>
+      simp only [Option.some.injEq] at h
+      subst h
+      refine ⟨?_, ?_, ?_, ?_, ?_⟩
+      · rw [toNat_append, toNat_replicate_zero, List.length_replicate]; ring
+      · exact AllLt_append.mpr ⟨AllLt_replicate_zero _, hx⟩
+      · simpa using hc
+      · intro _; simp
+      · intro h0; subst h0; simp at he
+
+theorem shlLimbs_none_iff {cap : Option Nat} {x : Big} {n : Nat} :
+    shlLimbs cap x n = none ↔ capOk cap (n + x.length) = false := by
+  unfold shlLimbs
+  split
+  · next hc => simpa using hc
+  · next hc =>
+    simp only [Bool.not_eq_eq_eq_not, Bool.not_true, Bool.not_eq_false] at hc
+    split <;> simp [hc]
+
+theorem two_pow_eq (n : Nat) : 2 ^ n = 2 ^ (n % 64) * B ^ (n / 64) := by
+  rw [B_eq, ← Nat.pow_mul, ← Nat.pow_add]
+  congr 1
+  have := Nat.div_add_mod n 64
+  omega
+
+theorem capOk_false_mono {cap : Option Nat} {m n : Nat} (h : m ≤ n) (hm : capOk cap m = false) :
+    capOk cap n = false := by
+  cases hn : capOk cap n with
+  | false => rfl
+  | true => rw [capOk_mono h hn] at hm; exact absurd hm (by simp)
+
+/-- "has no superfluous high zero limb", expressed on the value -/
+def TopNZ (x : Big) : Prop := x ≠ [] ∧ B ^ (x.length - 1) ≤ toNat x
+
+theorem TopNZ_of_normalized {x : Big} (hn : isNormalized x = true) (hne : x ≠ []) : TopNZ x :=
+  ⟨hne, toNat_ge_of_normalized hn hne⟩
+
+theorem shl_spec {cap : Option Nat} {x r : Big} {n : Nat} (hx : AllLt x)
+    (hcap : capOk cap x.length = true) (h : shl cap x n = some r) :
+    toNat r = toNat x * 2 ^ n ∧ AllLt r ∧ capOk cap r.length = true := by
+  unfold shl at h
+  simp only at h
+  rw [two_pow_eq n]
+  have hr : n % 64 < 64 := Nat.mod_lt _ (by omega)
+  split at h
+  · simp at h
+  · next x1 hx1 =>
+    have h1 : toNat x1 = toNat x * 2 ^ (n % 64) ∧ AllLt x1 ∧ capOk cap x1.length = true := by
+      split at hx1
+      · next hrem =>
+        obtain ⟨a, b, c, _⟩ := shlBits_spec (Nat.pos_of_ne_zero hrem) hr hx hcap hx1
+        exact ⟨a, b, c⟩
+      · next hrem =>
+        simp only [ne_eq, Decidable.not_not] at hrem
+        simp only [Option.some.injEq] at hx1
+        subst hx1
+        rw [hrem]; simp [hx, hcap]
+    obtain ⟨a, b, c⟩ := h1
+    split at h
+    · obtain ⟨a', b', c', _⟩ := shlLimbs_spec b h
+      refine ⟨?_, b', c'⟩
+      rw [a', a]; ring
+    · next hdiv =>
+      simp only [ne_eq, Decidable.not_not] at hdiv
+      simp only [Option.some.injEq] at h
+      subst h
+      rw [hdiv]; simp [a, b, c]
+
+theorem shl_none {cap : Option Nat} {x : Big} {n : Nat} (hx : AllLt x)
+    (hcap : capOk cap x.length = true) (h : shl cap x n = none) :
+    capOk cap (x.length + 1 + n / 64) = false := by
+  unfold shl at h
+  simp only at h
+  have hr : n % 64 < 64 := Nat.mod_lt _ (by omega)
+  split at h
+  · next hx1 =>
+    split at hx1
+    · next hrem =>
+      rw [shlBits_none_iff (Nat.pos_of_ne_zero hrem) hr hx] at hx1
+      exact capOk_false_mono (by omega) hx1.1
+    · simp at hx1
+  · next x1 hx1 =>
+    have h1 : x1.length ≤ x.length + 1 := by
+      split at hx1
+      · next hrem =>
+        obtain ⟨_, _, _, _, e, _⟩ := shlBits_spec (Nat.pos_of_ne_zero hrem) hr hx hcap hx1
+        exact e
+      · simp only [Option.some.injEq] at hx1
+        subst hx1; omega
+    split at h
+    · rw [shlLimbs_none_iff] at h
+      exact capOk_false_mono (by omega) h
+    · simp at h
+
+theorem shl_none_topNZ {cap : Option Nat} {x : Big} {n : Nat} (hx : AllLt x)
+    (hcap : capOk cap x.length = true) (hn : TopNZ x) (h : shl cap x n = none) :
+    ∃ c, cap = some c ∧ B ^ c ≤ toNat x * 2 ^ n := by
+  unfold shl at h
+  simp only at h
+  have hr : n % 64 < 64 := Nat.mod_lt _ (by omega)
+  rw [two_pow_eq n]
+  have hpos : 0 < B ^ (n / 64) := Bpow_pos _
+  have hxl : 0 < x.length := List.length_pos_iff.mpr hn.1
+  split at h
+  · next hx1 =>
+    split at hx1
+    · next hrem =>
+      rw [shlBits_none_iff (Nat.pos_of_ne_zero hrem) hr hx] at hx1
+      obtain ⟨c, hc, hlt⟩ := capOk_false_iff.mp hx1.1
+      refine ⟨c, hc, ?_⟩
+      have h1 := Bpow_le (show c ≤ x.length by omega)
+      have h2 : toNat x * 2 ^ (n % 64) * 1 ≤ toNat x * 2 ^ (n % 64) * B ^ (n / 64) :=
+        Nat.mul_le_mul_left _ hpos
+      rw [← Nat.mul_assoc]
+      have := hx1.2
+      omega
+    · simp at hx1
+  · next x1 hx1 =>
+    have h1 : toNat x1 = toNat x * 2 ^ (n % 64) ∧ 0 < x1.length ∧ B ^ (x1.length - 1) ≤ toNat x1 := by
+      split at hx1
+      · next hrem =>
+        obtain ⟨a, _, _, d, e, f⟩ := shlBits_spec (Nat.pos_of_ne_zero hrem) hr hx hcap hx1
+        refine ⟨a, by omega, ?_⟩
+        by_cases hl : x1.length = x.length + 1
+        · have := f hl
+          rw [hl]; simpa using this
+        · have e' : x1.length = x.length := by omega
+          rw [e', a]
+          have : toNat x * 1 ≤ toNat x * 2 ^ (n % 64) := Nat.mul_le_mul_left _ (Nat.two_pow_pos _)
+          have := hn.2
+          omega
+      · simp only [Option.some.injEq] at hx1
+        subst hx1
+        next hrem =>
+        simp only [ne_eq, Decidable.not_not] at hrem
+        rw [hrem]; simp [hxl, hn.2]
+    obtain ⟨a, b, c⟩ := h1
+    split at h
+    · rw [shlLimbs_none_iff] at h
+      obtain ⟨c', hc, hlt⟩ := capOk_false_iff.mp h
+      refine ⟨c', hc, ?_⟩
+      rw [← Nat.mul_assoc, ← a]
+      have h1 := Bpow_le (show c' ≤ (x1.length - 1) + n / 64 by omega)
+      rw [Nat.pow_add] at h1
+      have := Nat.mul_le_mul_right (B ^ (n / 64)) c
+      omega
+    · simp at h
+
+-- ---------------------------------------------------------------- longMul
+theorem smallMul_topNZ {cap : Option Nat} {x r : Big} {y : Nat}
+    (hn : TopNZ x) (hy0 : y ≠ 0) (h : smallMul cap x y = some r) : TopNZ r := by
+  have h1 := smallMulAux_length y x 0
+  have h2 := smallMulAux_spec y x 0
+  have hxl : 0 < x.length := List.length_pos_iff.mpr hn.1
+  have hge : toNat x * 1 ≤ toNat x * y := Nat.mul_le_mul_left _ (Nat.pos_of_ne_zero hy0)
+  have := hn.2
+  unfold smallMul at h
+  simp only at h
+  split at h
+  · next hz =>
+    obtain ⟨rfl, hc⟩ := vecTryPush_some h
+    refine ⟨by simp, ?_⟩
+    rw [toNat_append, toNat_singleton, h1, List.length_append, h1]
+    have : B ^ x.length * 1 ≤ B ^ x.length * (smallMulAux y 0 x).2 :=
+      Nat.mul_le_mul_left _ (Nat.pos_of_ne_zero hz)
+    simp only [List.length_cons, List.length_nil, Nat.zero_add, Nat.add_sub_cancel]
+    omega
+  · next hz =>
+    simp only [ne_eq, Decidable.not_not] at hz
+    simp only [Option.some.injEq] at h
+    subst h
+    rw [hz] at h2
+    refine ⟨?_, ?_⟩
+    · intro h0; rw [h0] at h1; simp at h1; omega
+    · rw [h1]; omega
+
+theorem longMulLoop_spec {cap : Option Nat} {x : Big} (hx : AllLt x) :
+    ∀ {ys : List Nat} {index : Nat} {z r : Big}, AllLt ys → AllLt z → capOk cap z.length = true →
+    longMulLoop cap x ys index z = some r →
+    toNat r = toNat z + toNat x * toNat ys * B ^ index ∧ AllLt r ∧ capOk cap r.length = true := by
+  intro ys
+  induction ys with
+  | nil =>
+    intro index z r _ hz hc h
+    simp only [longMulLoop, Option.some.injEq] at h
+    subst h
+    simp [toNat, hz, hc]
+  | cons yi ys ih =>
+    intro index z r hys hz hc h
+    rw [AllLt_cons] at hys
+    simp only [longMulLoop] at h
+    split at h
+    · next hyi =>
+      split at h
+      · simp at h
+      · next zi0 h0 =>
+        obtain ⟨rfl, hcx⟩ := vecTryFrom_some h0
+        split at h
+        · simp at h
+        · next zi h1 =>
+          obtain ⟨m1, m2, m3, _⟩ := smallMul_spec hx hys.1 hcx h1
+          split at h
+          · simp at h
+          · next z' h2 =>
+            obtain ⟨a1, a2, a3, _⟩ := largeAddFrom_spec hz m2 hc h2
+            obtain ⟨r1, r2, r3⟩ := ih hys.2 a2 a3 h
+            refine ⟨?_, r2, r3⟩
+            rw [r1, a1, m1, toNat_cons, Nat.pow_succ]; ring
+    · next hyi =>
+      simp only [ne_eq, Decidable.not_not] at hyi
+      obtain ⟨r1, r2, r3⟩ := ih hys.2 hz hc h
+      refine ⟨?_, r2, r3⟩
+      rw [r1, toNat_cons, hyi, Nat.pow_succ]; ring
+
+theorem longMul_spec {cap : Option Nat} {x y r : Big} (hx : AllLt x) (hy : AllLt y) (hy0 : y ≠ [])
+    (h : longMul cap x y = some r) :
+    toNat r = toNat x * toNat y ∧ AllLt r ∧ capOk cap r.length = true ∧
+    isNormalized r = true := by
+  unfold longMul at h
+  split at h
+  · simp at h
+  · next z0 h0 =>
+    obtain ⟨rfl, hcx⟩ := vecTryFrom_some h0
+    cases y with
+    | nil => exact absurd rfl hy0
+    | cons y0 ys =>
+      rw [AllLt_cons] at hy
+      simp only at h
+      split at h
+      · simp at h
+      · next z1 h1 =>
+        obtain ⟨m1, m2, m3, _⟩ := smallMul_spec hx hy.1 hcx h1
+        split at h
+        · simp at h
+        · next z h2 =>
+          obtain ⟨r1, r2, r3⟩ := longMulLoop_spec hx hy.2 m2 m3 h2
+          simp only [Option.some.injEq] at h
+          subst h
+          refine ⟨?_, normalize_allLt r2, normalize_capOk r3, normalize_isNormalized _⟩
+          rw [normalize_toNat, r1, m1, toNat_cons]; ring
+
+theorem longMul_nil (cap : Option Nat) (x : Big) (h : capOk cap x.length = true) :
+    longMul cap x [] = some (normalize x) := by
+  simp [longMul, vecTryFrom, vecTryExtend, h]
+
+theorem mul_limb_bound {p b x y : Nat} (hx : x < p) (hy : y < b) : x * y + p ≤ p * b := by
+  obtain ⟨p', rfl⟩ : ∃ p', p = p' + 1 := ⟨p - 1, by omega⟩
+  obtain ⟨b', rfl⟩ : ∃ b', b = b' + 1 := ⟨b - 1, by omega⟩
+  have : x * y ≤ p' * b' := Nat.mul_le_mul (by omega) (by omega)
+  have e : (p' + 1) * (b' + 1) = p' * b' + p' + b' + 1 := by ring
+  omega
+
+/-- the loop of `longMul` succeeds when `x.length + y.length` limbs are available -/
+theorem longMulLoop_some {cap : Option Nat} {x : Big} (hx : AllLt x) :
+    ∀ {ys : List Nat} {index : Nat} {z : Big}, AllLt ys → AllLt z → capOk cap z.length = true →
+    capOk cap (x.length + index + ys.length) = true → toNat z < B ^ (x.length + index) →
+    ∃ r, longMulLoop cap x ys index z = some r := by
+  intro ys
+  induction ys with
+  | nil => intro index z _ _ _ _ _; exact ⟨z, rfl⟩
+  | cons yi ys ih =>
+    intro index z hys hz hc hN hlt
+    rw [AllLt_cons] at hys
+    simp only [longMulLoop]
+    simp only [List.length_cons] at hN
+    have hN' : capOk cap (x.length + (index + 1) + ys.length) = true := by
+      have : x.length + (index + 1) + ys.length = x.length + index + (ys.length + 1) := by omega
+      rw [this]; exact hN
+    have hlt' : toNat z < B ^ (x.length + (index + 1)) :=
+      Nat.lt_of_lt_of_le hlt (Bpow_le (by omega))
+    split
+    · next hyi =>
+      have hcx : capOk cap x.length = true := capOk_mono (by omega) hN
+      have h0 : vecTryFrom cap x = some x := by
+        simp [vecTryFrom, vecTryExtend, hcx]
+      rw [h0]
+      simp only
+      cases h1 : smallMul cap x yi with
+      | none =>
+        rw [smallMul_none_iff] at h1
+        rw [capOk_mono (by omega) hN] at h1
+        simp at h1
+      | some zi =>
+        simp only
+        obtain ⟨m1, m2, m3, m4, m5⟩ := smallMul_spec hx hys.1 hcx h1
+        have hbound : toNat z + toNat zi * B ^ index < B ^ (x.length + (index + 1)) := by
+          have hb := mul_limb_bound (toNat_lt hx) hys.1
+          have := Nat.mul_le_mul_right (B ^ index) hb
+          rw [Nat.add_mul] at this
+          have e : B ^ x.length * B * B ^ index = B ^ (x.length + (index + 1)) := by
+            rw [Nat.pow_add, Nat.pow_succ]; ring
+          have e2 : B ^ x.length * B ^ index = B ^ (x.length + index) := by rw [Nat.pow_add]
+          rw [e, e2] at this
+          rw [m1]; omega
+        cases h2 : largeAddFrom cap z zi index with
+        | none =>
+          exfalso
+          by_cases hzi : zi = []
+          · subst hzi; rw [largeAddFrom_nil] at h2; simp at h2
+          · rw [largeAddFrom_none_iff hz m2 hzi] at h2
+            rcases h2 with ⟨h2, _⟩ | ⟨h2, h3⟩
+            · rw [capOk_mono (by omega) hN] at h2; simp at h2
+            · obtain ⟨c, hcc, hgt⟩ := capOk_false_iff.mp h2
+              subst hcc
+              rw [capOk_some] at hN
+              have := Bpow_le (show x.length + (index + 1) ≤ max z.length (zi.length + index)
+                by omega)
+              omega
+        | some z' =>
+          simp only
+          obtain ⟨a1, a2, a3, _⟩ := largeAddFrom_spec hz m2 hc h2
+          exact ih hys.2 a2 a3 hN' (by rw [a1]; exact hbound)
+    · exact ih hys.2 hz hc hN' hlt'
+
+theorem longMul_some {cap : Option Nat} {x y : Big} (hx : AllLt x) (hy : AllLt y)
+    (hN : capOk cap (x.length + y.length) = true) : ∃ r, longMul cap x y = some r := by
+  unfold longMul
+  have hcx : capOk cap x.length = true := capOk_mono (by omega) hN
+  have h0 : vecTryFrom cap x = some x := by simp [vecTryFrom, vecTryExtend, hcx]
+  rw [h0]
+  simp only
+  cases y with
+  | nil => exact ⟨_, rfl⟩
+  | cons y0 ys =>
+    rw [AllLt_cons] at hy
+    simp only [List.length_cons] at hN
+    simp only
+    cases h1 : smallMul cap x y0 with
+    | none =>
+      rw [smallMul_none_iff] at h1
+      rw [capOk_mono (by omega) hN] at h1
+      simp at h1
+    | some z1 =>
+      simp only
+      obtain ⟨m1, m2, m3, _⟩ := smallMul_spec hx hy.1 hcx h1
+      have hb := mul_limb_bound (toNat_lt hx) hy.1
+      have := Bpow_pos x.length
+      obtain ⟨z, hz⟩ := longMulLoop_some (cap := cap) hx hy.2 m2 m3
+        (by rw [show x.length + 1 + ys.length = x.length + (ys.length + 1) by omega]; exact hN)
+        (by rw [m1, Nat.pow_succ]; omega)
+      rw [hz]
+      exact ⟨_, rfl⟩
+
+/-- if the loop of `longMul` fails, the exact product does not fit -/
+theorem longMulLoop_none {cap : Option Nat} {x : Big} (hx : AllLt x) (hn : TopNZ x)
+    (hcx : capOk cap x.length = true) :
+    ∀ {ys : List Nat} {index : Nat} {z : Big}, AllLt ys → AllLt z → capOk cap z.length = true →
+    longMulLoop cap x ys index z = none →
+    ∃ c, cap = some c ∧ B ^ c ≤ toNat z + toNat x * toNat ys * B ^ index := by
+  intro ys
+  induction ys with
+  | nil => intro index z _ _ _ h; simp [longMulLoop] at h
+  | cons yi ys ih =>
+    intro index z hys hz hc h
+    rw [AllLt_cons] at hys
+    simp only [longMulLoop] at h
+    have hxl : 0 < x.length := List.length_pos_iff.mpr hn.1
+    have hBi : 0 < B ^ index := Bpow_pos _
+    -- the contribution of limb `yi` is bounded by the whole remaining product
+    have hmono : toNat x * yi * B ^ index ≤ toNat x * toNat (yi :: ys) * B ^ index := by
+      apply Nat.mul_le_mul_right
+      apply Nat.mul_le_mul_left
+      rw [toNat_cons]; omega
+    split at h
+    · next hyi =>
+      have h0 : vecTryFrom cap x = some x := by simp [vecTryFrom, vecTryExtend, hcx]
+      rw [h0] at h
+      simp only at h
+      split at h
+      · next h1 =>
+        rw [smallMul_none_iff] at h1
+        obtain ⟨c, hcc, hgt⟩ := capOk_false_iff.mp h1.1
+        refine ⟨c, hcc, ?_⟩
+        have := Bpow_le (show c ≤ x.length by omega)
+        have : toNat x * yi * 1 ≤ toNat x * yi * B ^ index := Nat.mul_le_mul_left _ hBi
+        have := h1.2
+        omega
+      · next zi h1 =>
+        obtain ⟨m1, m2, m3, _⟩ := smallMul_spec hx hys.1 hcx h1
+        have mt := smallMul_topNZ hn hyi h1
+        split at h
+        · next h2 =>
+          rw [largeAddFrom_none_iff hz m2 mt.1] at h2
+          rcases h2 with ⟨h2, _⟩ | ⟨h2, h3⟩
+          · obtain ⟨c, hcc, hgt⟩ := capOk_false_iff.mp h2
+            refine ⟨c, hcc, ?_⟩
+            have h4 := Bpow_le (show c ≤ (zi.length - 1) + index by omega)
+            rw [Nat.pow_add] at h4
+            have := Nat.mul_le_mul_right (B ^ index) mt.2
+            rw [m1] at this
+            omega
+          · obtain ⟨c, hcc, hgt⟩ := capOk_false_iff.mp h2
+            refine ⟨c, hcc, ?_⟩
+            have := Bpow_le (show c ≤ max z.length (zi.length + index) by omega)
+            rw [m1] at h3
+            omega
+        · next z' h2 =>
+          obtain ⟨a1, a2, a3, _⟩ := largeAddFrom_spec hz m2 hc h2
+          obtain ⟨c, hcc, hge⟩ := ih hys.2 a2 a3 h
+          refine ⟨c, hcc, ?_⟩
+          have e : toNat z' + toNat x * toNat ys * B ^ (index + 1) =
+              toNat z + toNat x * toNat (yi :: ys) * B ^ index := by
+            rw [a1, m1, toNat_cons, Nat.pow_succ]; ring
+          omega
+    · next hyi =>
+      simp only [ne_eq, Decidable.not_not] at hyi
+      obtain ⟨c, hcc, hge⟩ := ih hys.2 hz hc h
+      refine ⟨c, hcc, ?_⟩
+      have e : toNat z + toNat x * toNat ys * B ^ (index + 1) =
+          toNat z + toNat x * toNat (yi :: ys) * B ^ index := by
+        rw [toNat_cons, hyi, Nat.pow_succ]; ring
+      omega
+
+theorem longMul_none_topNZ {cap : Option Nat} {x y : Big} (hx : AllLt x) (hy : AllLt y)
+    (hn : TopNZ x) (hy0 : 0 < toNat y) (h : longMul cap x y = none) :
+    ∃ c, cap = some c ∧ B ^ c ≤ toNat x * toNat y := by
+  unfold longMul at h
+  have hxy : toNat x * 1 ≤ toNat x * toNat y := Nat.mul_le_mul_left _ hy0
+  split at h
+  · next h0 =>
+    rw [vecTryFrom_none] at h0
+    obtain ⟨c, hcc, hgt⟩ := capOk_false_iff.mp h0
+    refine ⟨c, hcc, ?_⟩
+    have := Bpow_le (show c ≤ x.length - 1 by omega)
+    have := hn.2
+    omega
+  · next z0 h0 =>
+    obtain ⟨rfl, hcx⟩ := vecTryFrom_some h0
+    cases y with
+    | nil => simp at h
+    | cons y0 ys =>
+      rw [AllLt_cons] at hy
+      simp only at h
+      split at h
+      · next h1 =>
+        rw [smallMul_none_iff] at h1
+        obtain ⟨c, hcc, hgt⟩ := capOk_false_iff.mp h1.1
+        refine ⟨c, hcc, ?_⟩
+        have := Bpow_le (show c ≤ z0.length by omega)
+        have : toNat z0 * y0 ≤ toNat z0 * toNat (y0 :: ys) := by
+          apply Nat.mul_le_mul_left; rw [toNat_cons]; omega
+        have := h1.2
+        omega
+      · next z1 h1 =>
+        obtain ⟨m1, m2, m3, _⟩ := smallMul_spec hx hy.1 hcx h1
+        split at h
+        · next h2 =>
+          obtain ⟨c, hcc, hge⟩ := longMulLoop_none hx hn hcx hy.2 m2 m3 h2
+          refine ⟨c, hcc, ?_⟩
+          have e : toNat z1 + toNat z0 * toNat ys * B ^ 1 = toNat z0 * toNat (y0 :: ys) := by
+            rw [m1, toNat_cons]; ring
+          omega
+        · simp at h
+
+-- ---------------------------------------------------------------- largeMul
+theorem largeMul_spec {cap : Option Nat} {x y r : Big} (hx : AllLt x) (hy : AllLt y)
+    (hx0 : x ≠ []) (hcap : capOk cap x.length = true) (h : largeMul cap x y = some r) :
+    toNat r = toNat x * toNat y ∧ AllLt r ∧ capOk cap r.length = true := by
+  unfold largeMul at h
+  split at h
+  · next y0 =>
+    obtain ⟨a, b, c, _⟩ := smallMul_spec hx (AllLt_singleton.mp hy) hcap h
+    exact ⟨by rw [a, toNat_singleton], b, c⟩
+  · obtain ⟨a, b, c, _⟩ := longMul_spec hy hx hx0 h
+    exact ⟨by rw [a, Nat.mul_comm], b, c⟩
+
+theorem largeMul_some {cap : Option Nat} {x y : Big} (hx : AllLt x) (hy : AllLt y)
+    (hN : capOk cap (x.length + y.length) = true) : ∃ r, largeMul cap x y = some r := by
+  unfold largeMul
+  split
+  · next y0 =>
+    cases h1 : smallMul cap x y0 with
+    | none =>
+      rw [smallMul_none_iff] at h1
+      simp only [List.length_cons, List.length_nil, Nat.zero_add] at hN
+      rw [hN] at h1; simp at h1
+    | some r => exact ⟨r, rfl⟩
+  · exact longMul_some hy hx (by rw [Nat.add_comm]; exact hN)
+
+theorem largeMul_none_topNZ {cap : Option Nat} {x y : Big} (hx : AllLt x) (hy : AllLt y)
+    (hnx : TopNZ x) (hny : TopNZ y) (h : largeMul cap x y = none) :
+    ∃ c, cap = some c ∧ B ^ c ≤ toNat x * toNat y := by
+  unfold largeMul at h
+  split at h
+  · next y0 =>
+    rw [smallMul_none_iff] at h
+    obtain ⟨c, hcc, hgt⟩ := capOk_false_iff.mp h.1
+    refine ⟨c, hcc, ?_⟩
+    have := Bpow_le (show c ≤ x.length by omega)
+    rw [toNat_singleton]
+    have := h.2
+    omega
+  · have hxpos : 0 < toNat x := Nat.lt_of_lt_of_le (Bpow_pos _) hnx.2
+    obtain ⟨c, hcc, hge⟩ := longMul_none_topNZ hy hx hny hxpos h
+    exact ⟨c, hcc, by rw [Nat.mul_comm]; exact hge⟩
+
+/-- the result of `largeMul` on non-zero operands again has a non-zero top limb -/
+theorem largeMul_topNZ {cap : Option Nat} {x y r : Big} (hx : AllLt x) (hy : AllLt y)
+    (hnx : TopNZ x) (hny : TopNZ y) (h : largeMul cap x y = some r) : TopNZ r := by
+  have hxpos : 0 < toNat x := Nat.lt_of_lt_of_le (Bpow_pos _) hnx.2
+  have hypos : 0 < toNat y := Nat.lt_of_lt_of_le (Bpow_pos _) hny.2
+  unfold largeMul at h
+  split at h
+  · next y0 =>
+    rw [toNat_singleton] at hypos
+    exact smallMul_topNZ hnx (by omega) h
+  · obtain ⟨a, _, _, d⟩ := longMul_spec hy hx hnx.1 h
+    have hpos : 0 < toNat r := by rw [a]; exact Nat.mul_pos hypos hxpos
+    have hne : r ≠ [] := by intro h0; subst h0; simp [toNat] at hpos
+    exact TopNZ_of_normalized d hne
+
+-- ---------------------------------------------------------------- pow
+/-- what `pow` needs from the tables of a non-compact build -/
+structure PowTablesOK (T : PowTables) : Prop where
+  large_val : toNat T.largePow5 = 5 ^ T.largePow5Step
+  large_lt : AllLt T.largePow5
+  large_norm : isNormalized T.largePow5 = true
+  small : ∀ i, i < 27 → T.smallIntPow5.getD i 0 = 5 ^ i
+
+theorem five_pow_lt {e : Nat} (h : e ≤ 27) : 5 ^ e < B := by
+  have : 5 ^ e ≤ 5 ^ 27 := Nat.pow_le_pow_right (by omega) h
+  have : (5 : Nat) ^ 27 < B := by unfold B; norm_num
+  omega
+
+theorem PowTablesOK.topNZ {T : PowTables} (h : PowTablesOK T) : TopNZ T.largePow5 := by
+  apply TopNZ_of_normalized h.large_norm
+  intro h0
+  have := h.large_val
+  rw [h0] at this
+  have := Nat.pow_pos (n := T.largePow5Step) (show 0 < 5 by omega)
+  simp only [toNat] at *
+  omega
+
+theorem powLargeLoop_spec {cap : Option Nat} {T : PowTables} (hT : PowTablesOK T) :
+    ∀ (fuel : Nat) {x x' : Big} {e e' : Nat}, AllLt x → toNat x ≠ 0 →
+    capOk cap x.length = true → powLargeLoop cap T fuel x e = some (x', e') →
+    toNat x' * 5 ^ e' = toNat x * 5 ^ e ∧ AllLt x' ∧ toNat x' ≠ 0 ∧
+    capOk cap x'.length = true ∧ (TopNZ x → TopNZ x') := by
+  intro fuel
+  induction fuel with
+  | zero =>
+    intro x x' e e' hx h0 hc h
+    simp only [powLargeLoop, Option.some.injEq, Prod.mk.injEq] at h
+    obtain ⟨rfl, rfl⟩ := h
+    exact ⟨rfl, hx, h0, hc, id⟩
+  | succ fuel ih =>
+    intro x x' e e' hx h0 hc h
+    simp only [powLargeLoop] at h
+    split at h
+    · next hge =>
+      split at h
+      · simp at h
+      · next x1 h1 =>
+        have hne : x ≠ [] := by intro hh; subst hh; simp [toNat] at h0
+        obtain ⟨a, b, c⟩ := largeMul_spec hx hT.large_lt hne hc h1
+        have h0' : toNat x1 ≠ 0 := by
+          rw [a, hT.large_val]
+          exact Nat.mul_ne_zero h0 (Nat.pow_pos (by omega)).ne'
+        obtain ⟨r1, r2, r3, r4, r5⟩ := ih b h0' c h
+        refine ⟨?_, r2, r3, r4, fun ht => r5 (largeMul_topNZ hx hT.large_lt ht hT.topNZ h1)⟩
+        rw [r1, a, hT.large_val, Nat.mul_assoc, ← Nat.pow_add]
+        congr 2; omega
+    · simp only [Option.some.injEq, Prod.mk.injEq] at h
+      obtain ⟨rfl, rfl⟩ := h
+      exact ⟨rfl, hx, h0, hc, id⟩
+
+theorem powLargeLoop_none {cap : Option Nat} {T : PowTables} (hT : PowTablesOK T) :
+    ∀ (fuel : Nat) {x : Big} {e : Nat}, AllLt x → TopNZ x →
+    capOk cap x.length = true → powLargeLoop cap T fuel x e = none →
+    ∃ c, cap = some c ∧ B ^ c ≤ toNat x * 5 ^ e := by
+  intro fuel
+  induction fuel with
+  | zero => intro x e _ _ _ h; simp [powLargeLoop] at h
+  | succ fuel ih =>
+    intro x e hx hn hc h
+    simp only [powLargeLoop] at h
+    split at h
+    · next hge =>
+      have hsplit : (5 : Nat) ^ e = 5 ^ T.largePow5Step * 5 ^ (e - T.largePow5Step) := by
+        rw [← Nat.pow_add]; congr 1; omega
+      split at h
+      · next h1 =>
+        obtain ⟨c, hcc, hle⟩ := largeMul_none_topNZ hx hT.large_lt hn hT.topNZ h1
+        refine ⟨c, hcc, ?_⟩
+        rw [hT.large_val] at hle
+        rw [hsplit, ← Nat.mul_assoc]
+        have : toNat x * 5 ^ T.largePow5Step * 1 ≤
+            toNat x * 5 ^ T.largePow5Step * 5 ^ (e - T.largePow5Step) :=
+          Nat.mul_le_mul_left _ (Nat.pow_pos (by omega))
+        omega
+      · next x1 h1 =>
+        obtain ⟨a, b, c⟩ := largeMul_spec hx hT.large_lt hn.1 hc h1
+        obtain ⟨c', hcc, hle⟩ := ih b (largeMul_topNZ hx hT.large_lt hn hT.topNZ h1) c h
+        refine ⟨c', hcc, ?_⟩
+        rw [a, hT.large_val, Nat.mul_assoc, ← hsplit] at hle
+        exact hle
+    · simp at h
+
+theorem powSmallLoop_spec {cap : Option Nat} :
+    ∀ (fuel : Nat) {x x' : Big} {e e' : Nat}, AllLt x →
+    capOk cap x.length = true → powSmallLoop cap fuel x e = some (x', e') →
+    toNat x' * 5 ^ e' = toNat x * 5 ^ e ∧ AllLt x' ∧
+    capOk cap x'.length = true ∧ (TopNZ x → TopNZ x') ∧ (e < fuel → e' < 27) := by
+  intro fuel
+  induction fuel with
+  | zero =>
+    intro x x' e e' hx hc h
+    simp only [powSmallLoop, Option.some.injEq, Prod.mk.injEq] at h
+    obtain ⟨rfl, rfl⟩ := h
+    exact ⟨rfl, hx, hc, id, by omega⟩
+  | succ fuel ih =>
+    intro x x' e e' hx hc h
+    simp only [powSmallLoop] at h
+    split at h
+    · next hge =>
+      split at h
+      · simp at h
+      · next x1 h1 =>
+        obtain ⟨a, b, c, _⟩ := smallMul_spec hx (five_pow_lt (Nat.le_refl _)) hc h1
+        obtain ⟨r1, r2, r3, r4, r5⟩ := ih b c h
+        refine ⟨?_, r2, r3, fun ht => r4 (smallMul_topNZ ht (by norm_num) h1), fun _ => r5 (by omega)⟩
+        rw [r1, a, Nat.mul_assoc, ← Nat.pow_add]
+        congr 2; omega
+    · next hlt =>
+      simp only [Option.some.injEq, Prod.mk.injEq] at h
+      obtain ⟨rfl, rfl⟩ := h
+      exact ⟨rfl, hx, hc, id, fun _ => by omega⟩
+
+theorem powSmallLoop_none {cap : Option Nat} :
+    ∀ (fuel : Nat) {x : Big} {e : Nat}, AllLt x →
+    capOk cap x.length = true → powSmallLoop cap fuel x e = none →
+    ∃ c, cap = some c ∧ B ^ c ≤ toNat x * 5 ^ e := by
+  intro fuel
+  induction fuel with
+  | zero => intro x e _ _ h; simp [powSmallLoop] at h
+  | succ fuel ih =>
+    intro x e hx hc h
+    simp only [powSmallLoop] at h
+    split at h
+    · next hge =>
+      have hsplit : (5 : Nat) ^ e = 5 ^ 27 * 5 ^ (e - 27) := by
+        rw [← Nat.pow_add]; congr 1; omega
+      split at h
+      · next h1 =>
+        rw [smallMul_none_iff] at h1
+        obtain ⟨c, hcc, hgt⟩ := capOk_false_iff.mp h1.1
+        refine ⟨c, hcc, ?_⟩
+        have := Bpow_le (show c ≤ x.length by omega)
+        rw [hsplit, ← Nat.mul_assoc]
+        have : toNat x * 5 ^ 27 * 1 ≤ toNat x * 5 ^ 27 * 5 ^ (e - 27) :=
+          Nat.mul_le_mul_left _ (Nat.pow_pos (by omega))
+        have := h1.2
+        omega
+      · next x1 h1 =>
+        obtain ⟨a, b, c, _⟩ := smallMul_spec hx (five_pow_lt (Nat.le_refl _)) hc h1
+        obtain ⟨c', hcc, hle⟩ := ih b c h
+        refine ⟨c', hcc, ?_⟩
+        rw [a, Nat.mul_assoc, ← hsplit] at hle
+        exact hle
+    · simp at h
+
+theorem intPow5_eq {T : PowTables} (hT : T.compact = false → PowTablesOK T) {e : Nat}
+    (he : e < 27) : intPow5 T.compact T.smallIntPow5 e = 5 ^ e := by
+  unfold intPow5
+  cases hc : T.compact with
+  | true => simp only [if_true]; exact Nat.mod_eq_of_lt (five_pow_lt (by omega))
+  | false => simp only [Bool.false_eq_true, if_false]; exact (hT hc).small e he
+
+theorem pow_stage1 {cap : Option Nat} {T : PowTables} (hT : T.compact = false → PowTablesOK T)
+    {x x1 : Big} {e e1 : Nat} (hx : AllLt x)
+    (h0 : toNat x ≠ 0 ∨ T.compact = true ∨ e < T.largePow5Step)
+    (hc : capOk cap x.length = true)
+    (h : (if T.compact then some (x, e) else powLargeLoop cap T (e + 1) x e) = some (x1, e1)) :
+    toNat x1 * 5 ^ e1 = toNat x * 5 ^ e ∧ AllLt x1 ∧ capOk cap x1.length = true ∧
+    (TopNZ x → TopNZ x1) := by
+  cases hcm : T.compact with
+  | true =>
+    rw [hcm] at h
+    simp only [if_true, Option.some.injEq, Prod.mk.injEq] at h
+    obtain ⟨rfl, rfl⟩ := h
+    exact ⟨rfl, hx, hc, id⟩
+  | false =>
+    rw [hcm] at h
+    simp only [Bool.false_eq_true, if_false] at h
+    rcases h0 with h0 | h0 | h0
+    · obtain ⟨a, b, _, d, e⟩ := powLargeLoop_spec (hT hcm) _ hx h0 hc h
+      exact ⟨a, b, d, e⟩
+    · rw [hcm] at h0; exact absurd h0 (by simp)
+    · have hn : ¬ (T.largePow5Step ≠ 0 ∧ e ≥ T.largePow5Step) := by omega
+      simp only [powLargeLoop, hn, if_false, Option.some.injEq, Prod.mk.injEq] at h
+      obtain ⟨rfl, rfl⟩ := h
+      exact ⟨rfl, hx, hc, id⟩
+
+theorem pow_spec {cap : Option Nat} {T : PowTables} (hT : T.compact = false → PowTablesOK T)
+    {x r : Big} {e : Nat} (hx : AllLt x)
+    (h0 : toNat x ≠ 0 ∨ T.compact = true ∨ e < T.largePow5Step)
+    (hc : capOk cap x.length = true) (h : pow cap T x e = some r) :
+    toNat r = toNat x * 5 ^ e ∧ AllLt r ∧ capOk cap r.length = true ∧ (TopNZ x → TopNZ r) := by
+  unfold pow at h
+  simp only at h
+  split at h
+  · simp at h
+  · next x1 e1 h1 =>
+    obtain ⟨a1, a2, a3, a4⟩ := pow_stage1 hT hx h0 hc h1
+    split at h
+    · simp at h
+    · next x2 e2 h2 =>
+      obtain ⟨b1, b2, b3, b4, b5⟩ := powSmallLoop_spec _ a2 a3 h2
+      have he2 : e2 < 27 := b5 (by omega)
+      split at h
+      · next hne =>
+        rw [intPow5_eq hT he2] at h
+        obtain ⟨c1, c2, c3, _⟩ := smallMul_spec b2 (five_pow_lt (by omega)) b3 h
+        refine ⟨by rw [c1, b1, a1], c2, c3, fun ht => ?_⟩
+        exact smallMul_topNZ (b4 (a4 ht)) (Nat.pow_pos (by omega)).ne' h
+      · next hz =>
+        simp only [ne_eq, Decidable.not_not] at hz
+        simp only [Option.some.injEq] at h
+        subst h
+        subst hz
+        refine ⟨by rw [← a1, ← b1]; simp, b2, b3, fun ht => b4 (a4 ht)⟩
+
+theorem pow_none_topNZ {cap : Option Nat} {T : PowTables} (hT : T.compact = false → PowTablesOK T)
+    {x : Big} {e : Nat} (hx : AllLt x) (hn : TopNZ x) (hc : capOk cap x.length = true)
+    (h : pow cap T x e = none) : ∃ c, cap = some c ∧ B ^ c ≤ toNat x * 5 ^ e := by
+  have h0 : toNat x ≠ 0 := (Nat.lt_of_lt_of_le (Bpow_pos _) hn.2).ne'
+  unfold pow at h
+  simp only at h
+  split at h
+  · next h1 =>
+    cases hcm : T.compact with
+    | true => rw [hcm] at h1; simp at h1
+    | false =>
+      rw [hcm] at h1
+      simp only [Bool.false_eq_true, if_false] at h1
+      exact powLargeLoop_none (hT hcm) _ hx hn hc h1
+  · next x1 e1 h1 =>
+    obtain ⟨a1, a2, a3, a4⟩ := pow_stage1 hT hx (Or.inl h0) hc h1
+    split at h
+    · next h2 =>
+      obtain ⟨c, hcc, hle⟩ := powSmallLoop_none _ a2 a3 h2
+      exact ⟨c, hcc, by rw [← a1]; exact hle⟩
+    · next x2 e2 h2 =>
+      obtain ⟨b1, b2, b3, b4, b5⟩ := powSmallLoop_spec _ a2 a3 h2
+      have he2 : e2 < 27 := b5 (by omega)
+      split at h
+      · rw [intPow5_eq hT he2, smallMul_none_iff] at h
+        obtain ⟨c, hcc, hgt⟩ := capOk_false_iff.mp h.1
+        refine ⟨c, hcc, ?_⟩
+        have := Bpow_le (show c ≤ x2.length by omega)
+        have := h.2
+        rw [← a1, ← b1]; omega
+      · simp at h
+
+theorem bigintPow_spec {cap : Option Nat} {T : PowTables}
+    (hT : T.compact = false → PowTablesOK T) {x r : Big} {base e : Nat}
+    (hb : base = 2 ∨ base = 5 ∨ base = 10) (hx : AllLt x) (h0 : toNat x ≠ 0)
+    (hc : capOk cap x.length = true) (h : bigintPow cap T x base e = some r) :
+    toNat r = toNat x * base ^ e ∧ AllLt r ∧ capOk cap r.length = true := by
+  unfold bigintPow at h
+  rcases hb with rfl | rfl | rfl
+  · simp only [Nat.reduceMod, OfNat.ofNat_ne_zero, if_false, if_true] at h
+    exact shl_spec hx hc h
+  · simp only [Nat.reduceMod, if_true, Nat.reduceEqDiff, if_false] at h
+    split at h
+    · simp at h
+    · next x1 h1 =>
+      simp only [Option.some.injEq] at h
+      subst h
+      obtain ⟨a, b, c, _⟩ := pow_spec hT hx (Or.inl h0) hc h1
+      exact ⟨a, b, c⟩
+  · simp only [Nat.reduceMod, if_true] at h
+    split at h
+    · simp at h
+    · next x1 h1 =>
+      obtain ⟨a, b, c, _⟩ := pow_spec hT hx (Or.inl h0) hc h1
+      obtain ⟨a', b', c'⟩ := shl_spec b c h
+      refine ⟨?_, b', c'⟩
+      rw [a', a, Nat.mul_assoc, ← Nat.mul_pow]
+
+theorem bigintPow_none_topNZ {cap : Option Nat} {T : PowTables}
+    (hT : T.compact = false → PowTablesOK T) {x : Big} {base e : Nat}
+    (hb : base = 2 ∨ base = 5 ∨ base = 10) (hx : AllLt x) (hn : TopNZ x)
+    (hc : capOk cap x.length = true) (h : bigintPow cap T x base e = none) :
+    ∃ c, cap = some c ∧ B ^ c ≤ toNat x * base ^ e := by
+  have h0 : toNat x ≠ 0 := (Nat.lt_of_lt_of_le (Bpow_pos _) hn.2).ne'
+  unfold bigintPow at h
+  rcases hb with rfl | rfl | rfl
+  · simp only [Nat.reduceMod, OfNat.ofNat_ne_zero, if_false, if_true] at h
+    exact shl_none_topNZ hx hc hn h
+  · simp only [Nat.reduceMod, if_true, Nat.reduceEqDiff, if_false] at h
+    split at h
+    · next h1 => exact pow_none_topNZ hT hx hn hc h1
+    · simp at h
+  · simp only [Nat.reduceMod, if_true] at h
+    split at h
+    · next h1 =>
+      obtain ⟨c, hcc, hle⟩ := pow_none_topNZ hT hx hn hc h1
+      refine ⟨c, hcc, ?_⟩
+      have : toNat x * 5 ^ e ≤ toNat x * 10 ^ e :=
+        Nat.mul_le_mul_left _ (Nat.pow_le_pow_left (by omega) _)
+      omega
+    · next x1 h1 =>
+      obtain ⟨a, b, c, d⟩ := pow_spec hT hx (Or.inl h0) hc h1
+      obtain ⟨c', hcc, hle⟩ := shl_none_topNZ b c (d hn) h
+      refine ⟨c', hcc, ?_⟩
+      rw [a, Nat.mul_assoc, ← Nat.mul_pow] at hle
+      exact hle
+
+-- ---------------------------------------------------------------- bitLength / hi64
+theorem Bpow_eq (k : Nat) : B ^ k = 2 ^ (64 * k) := by rw [B_eq, ← Nat.pow_mul]
+
+theorem log2_lt_64 {v : Nat} (h0 : v ≠ 0) (hv : v < B) : Nat.log2 v < 64 := by
+  rw [Nat.log2_lt h0, ← B_eq]; exact hv
+
+theorem clz64_eq {v : Nat} (h0 : v ≠ 0) : clz64 v = 63 - Nat.log2 v := by
+  simp [clz64, h0]
+
+/-- value bounds of a limb list in terms of its top limb -/
+theorem log2_toNat_concat {ys : Big} {v : Nat} (hys : AllLt ys) (h0 : v ≠ 0) :
+    Nat.log2 (toNat (ys ++ [v])) = 64 * ys.length + Nat.log2 v := by
+  have hlt := toNat_lt hys
+  have h1 := Nat.log2_self_le h0
+  have h2 := @Nat.lt_log2_self v
+  have hpos := Bpow_pos ys.length
+  rw [toNat_append, toNat_singleton]
+  have hne : toNat ys + B ^ ys.length * v ≠ 0 := by
+    have : B ^ ys.length * 1 ≤ B ^ ys.length * v := Nat.mul_le_mul_left _ (Nat.pos_of_ne_zero h0)
+    omega
+  rw [Nat.log2_eq_iff hne]
+  have e1 : 2 ^ (64 * ys.length + Nat.log2 v) = B ^ ys.length * 2 ^ Nat.log2 v := by
+    rw [Nat.pow_add, Bpow_eq]
+  have e2 : 2 ^ (64 * ys.length + Nat.log2 v + 1) = B ^ ys.length * 2 ^ (Nat.log2 v + 1) := by
+    rw [Nat.add_assoc, Nat.pow_add, Bpow_eq]
+  rw [e1, e2]
+  have a1 := Nat.mul_le_mul_left (B ^ ys.length) h1
+  have a2 : B ^ ys.length * (v + 1) ≤ B ^ ys.length * 2 ^ (Nat.log2 v + 1) :=
+    Nat.mul_le_mul_left _ h2
+  rw [Nat.mul_add] at a2
+  omega
+
+theorem bitLength_concat {ys : Big} {v : Nat} (h0 : v ≠ 0) (hv : v < B) :
+    bitLength (ys ++ [v]) = 64 * ys.length + Nat.log2 v + 1 := by
+  unfold bitLength leadingZeros
+  have := log2_lt_64 h0 hv
+  simp only [List.getLast?_concat, List.length_append, List.length_cons, List.length_nil,
+    clz64_eq h0]
+  omega
+
+/-- a normalised non-empty list splits into a prefix and a non-zero top limb -/
+theorem exists_concat_of_normalized {x : Big} (hn : isNormalized x = true) (hne : x ≠ []) :
+    ∃ ys v, x = ys ++ [v] ∧ v ≠ 0 := by
+  rw [isNormalized_iff] at hn
+  cases h : x.getLast? with
+  | none => simp at h; exact absurd h hne
+  | some v =>
+    obtain ⟨ys, rfl⟩ := List.getLast?_eq_some_iff.mp h
+    refine ⟨ys, v, rfl, ?_⟩
+    intro hv; subst hv; exact hn h
+
+theorem bitLength_spec {x : Big} (hx : AllLt x) (hn : isNormalized x = true) (hne : x ≠ []) :
+    bitLength x = Nat.log2 (toNat x) + 1 := by
+  obtain ⟨ys, v, rfl, h0⟩ := exists_concat_of_normalized hn hne
+  rw [AllLt_append, AllLt_singleton] at hx
+  rw [bitLength_concat h0 hx.2, log2_toNat_concat hx.1 h0]
+
+theorem bne_zero_eq_decide {a b : Nat} (h : a = 0 ↔ b = 0) : (a != 0) = decide (b ≠ 0) := by
+  by_cases hb : b = 0
+  · have := h.mpr hb; simp [this, hb]
+  · have : a ≠ 0 := fun ha => hb (h.mp ha)
+    simp [this, hb]
+
+theorem u64ToHi64_1_spec {r0 : Nat} (h0 : r0 ≠ 0) (hr : r0 < B) :
+    u64ToHi64_1 r0 = (r0 * 2 ^ (63 - Nat.log2 r0), false) := by
+  unfold u64ToHi64_1
+  have hl := log2_lt_64 h0 hr
+  rw [clz64_eq h0, shl64_eq _ (by omega : 63 - Nat.log2 r0 < 64)]
+  congr 1
+  apply Nat.mod_eq_of_lt
+  have h2 := @Nat.lt_log2_self r0
+  have : r0 * 2 ^ (63 - Nat.log2 r0) < 2 ^ (Nat.log2 r0 + 1) * 2 ^ (63 - Nat.log2 r0) :=
+    Nat.mul_lt_mul_of_pos_right h2 (Nat.two_pow_pos _)
+  rw [← Nat.pow_add, show Nat.log2 r0 + 1 + (63 - Nat.log2 r0) = 64 by omega, ← B_eq] at this
+  exact this
+
+theorem u64ToHi64_2_spec {r0 r1 : Nat} (h0 : r0 ≠ 0) (hr0 : r0 < B) (hr1 : r1 < B) :
+    (u64ToHi64_2 r0 r1).1 = (r1 + B * r0) / 2 ^ (Nat.log2 r0 + 1) ∧
+    (u64ToHi64_2 r0 r1).2 = decide ((r1 + B * r0) % 2 ^ (Nat.log2 r0 + 1) ≠ 0) := by
+  unfold u64ToHi64_2
+  have hl := log2_lt_64 h0 hr0
+  have h2 := @Nat.lt_log2_self r0
+  simp only [clz64_eq h0]
+  by_cases hls : 63 - Nat.log2 r0 = 0
+  · have hl63 : Nat.log2 r0 + 1 = 64 := by omega
+    rw [hl63, ← B_eq]
+    simp only [hls, if_true]
+    constructor
+    · rw [Nat.add_mul_div_left _ _ B_pos, Nat.div_eq_of_lt hr1]; simp
+    · apply bne_zero_eq_decide
+      rw [Nat.add_mul_mod_self_left, Nat.mod_eq_of_lt hr1, shl64_eq _ (by omega : 0 < 64)]
+      simp [Nat.mod_eq_of_lt hr1]
+  · simp only [hls, if_false]
+    have hpos : 0 < 63 - Nat.log2 r0 := Nat.pos_of_ne_zero hls
+    have hlt : 63 - Nat.log2 r0 < 64 := by omega
+    have hrs : 64 - (63 - Nat.log2 r0) = Nat.log2 r0 + 1 := by omega
+    have hB := two_pow_split (Nat.le_of_lt hlt)
+    rw [hrs] at hB
+    constructor
+    · rw [shl_limb hpos hlt r0 hr1, hrs, Nat.mod_eq_of_lt h2, ← hB, Nat.mul_assoc,
+        Nat.add_mul_div_left _ _ (Nat.two_pow_pos _)]
+      rw [Nat.mul_comm r0]; omega
+    · apply bne_zero_eq_decide
+      rw [shl64_eq _ hlt, ← hB, Nat.mul_mod_mul_right, Nat.mul_assoc, Nat.add_mul_mod_self_left]
+      have := Nat.two_pow_pos (63 - Nat.log2 r0)
+      constructor
+      · intro h
+        rcases Nat.mul_eq_zero.mp h with h | h
+        · exact h
+        · omega
+      · intro h; rw [h]; simp
+
+theorem any_ne_zero_eq (lo : Big) : lo.any (· != 0) = decide (toNat lo ≠ 0) := by
+  induction lo with
+  | nil => simp [toNat]
+  | cons a lo ih =>
+    simp only [List.any_cons, ih, toNat]
+    have := B_pos
+    by_cases ha : a = 0
+    · subst ha
+      by_cases hl : toNat lo = 0
+      · simp [hl]
+      · have : B * toNat lo ≠ 0 := Nat.mul_ne_zero (by omega) hl
+        simp [hl, this]
+    · simp [ha]
+
+/-- dividing by `B^m * Q` strips the low part -/
+theorem low_part_div {lo : Big} (hlo : AllLt lo) (T Q : Nat) :
+    (toNat lo + B ^ lo.length * T) / (B ^ lo.length * Q) = T / Q := by
+  rw [← Nat.div_div_eq_div_mul, Nat.add_mul_div_left _ _ (Bpow_pos _),
+    Nat.div_eq_of_lt (toNat_lt hlo)]
+  simp
+
+theorem low_part_mod {lo : Big} (hlo : AllLt lo) (T Q : Nat) :
+    (toNat lo + B ^ lo.length * T) % (B ^ lo.length * Q) = toNat lo + B ^ lo.length * (T % Q) := by
+  rw [Nat.mod_mul, Nat.add_mul_mod_self_left, Nat.mod_eq_of_lt (toNat_lt hlo),
+    Nat.add_mul_div_left _ _ (Bpow_pos _), Nat.div_eq_of_lt (toNat_lt hlo)]
+  simp
+
+/-- the arithmetic content of `hi64` on a list with at least two limbs -/
+theorem hi64_general {lo : Big} {r0 r1 : Nat} (hlo : AllLt lo) (h0 : r0 ≠ 0) (hr0 : r0 < B)
+    (hr1 : r1 < B) :
+    bitLength (lo ++ [r1, r0]) = 64 * lo.length + 64 + Nat.log2 r0 + 1 ∧
+    (u64ToHi64_2 r0 r1).1 = toNat (lo ++ [r1, r0]) / 2 ^ (bitLength (lo ++ [r1, r0]) - 64) ∧
+    ((u64ToHi64_2 r0 r1).2 || lo.any (· != 0)) =
+      decide (toNat (lo ++ [r1, r0]) % 2 ^ (bitLength (lo ++ [r1, r0]) - 64) ≠ 0) := by
+  have hbl : bitLength (lo ++ [r1, r0]) = 64 * lo.length + 64 + Nat.log2 r0 + 1 := by
+    have : lo ++ [r1, r0] = (lo ++ [r1]) ++ [r0] := by simp
+    rw [this, bitLength_concat h0 hr0]
+    simp only [List.length_append, List.length_cons, List.length_nil]; omega
+  obtain ⟨s1, s2⟩ := u64ToHi64_2_spec h0 hr0 hr1
+  have hpow : 2 ^ (bitLength (lo ++ [r1, r0]) - 64) = B ^ lo.length * 2 ^ (Nat.log2 r0 + 1) := by
+    rw [hbl, Bpow_eq, ← Nat.pow_add]; congr 1; omega
+  have hval : toNat (lo ++ [r1, r0]) = toNat lo + B ^ lo.length * (r1 + B * r0) := by
+    rw [toNat_append]; simp [toNat]
+  refine ⟨hbl, ?_, ?_⟩
+  · rw [hpow, hval, low_part_div hlo, s1]
+  · rw [hpow, hval, low_part_mod hlo, s2, any_ne_zero_eq]
+    have hpos := Bpow_pos lo.length
+    rw [Bool.eq_iff_iff]
+    simp only [Bool.or_eq_true, decide_eq_true_eq]
+    constructor
+    · rintro (h | h)
+      · have := Nat.mul_ne_zero (Nat.ne_of_gt hpos) h; omega
+      · omega
+    · intro h
+      by_cases ha : (r1 + B * r0) % 2 ^ (Nat.log2 r0 + 1) = 0
+      · right; rw [ha] at h; simpa using h
+      · left; exact ha
+
+theorem hi64_rev_spec : ∀ (l : List Nat), AllLt l → l.head? ≠ some 0 → l ≠ [] →
+    (64 ≤ bitLength l.reverse →
+      (hi64 l.reverse).1 = toNat l.reverse / 2 ^ (bitLength l.reverse - 64) ∧
+      (hi64 l.reverse).2 = decide (toNat l.reverse % 2 ^ (bitLength l.reverse - 64) ≠ 0)) ∧
+    (bitLength l.reverse < 64 →
+      (hi64 l.reverse).1 = toNat l.reverse * 2 ^ (64 - bitLength l.reverse) ∧
+      (hi64 l.reverse).2 = false) := by
+  intro l hl hh hne
+  match l, hl, hh, hne with
+  | [], _, _, hne => exact absurd rfl hne
+  | [r0], hl, hh, _ =>
+    have h0 : r0 ≠ 0 := by simpa using hh
+    have hr0 : r0 < B := AllLt_singleton.mp hl
+    have hbl : bitLength [r0] = Nat.log2 r0 + 1 := by
+      have := bitLength_concat (ys := []) h0 hr0
+      simpa using this
+    have hlog := log2_lt_64 h0 hr0
+    have hhi : hi64 [r0] = (r0 * 2 ^ (63 - Nat.log2 r0), false) := by
+      simp only [hi64, List.reverse_cons, List.reverse_nil, List.nil_append]
+      exact u64ToHi64_1_spec h0 hr0
+    simp only [List.reverse_cons, List.reverse_nil, List.nil_append, hbl, hhi, toNat_singleton]
+    constructor
+    · intro h
+      have : Nat.log2 r0 = 63 := by omega
+      rw [this]; simp [Nat.mod_one]
+    · intro h
+      rw [show 64 - (Nat.log2 r0 + 1) = 63 - Nat.log2 r0 by omega]; simp
+  | [r0, r1], hl, hh, _ =>
+    have h0 : r0 ≠ 0 := by simpa using hh
+    rw [AllLt_cons, AllLt_singleton] at hl
+    obtain ⟨g1, g2, g3⟩ := hi64_general (lo := []) AllLt_nil h0 hl.1 hl.2
+    have hhi : hi64 [r1, r0] = u64ToHi64_2 r0 r1 := by
+      simp only [hi64, List.reverse_cons, List.reverse_nil, List.nil_append, List.cons_append]
+    simp only [List.any_nil, Bool.or_false, List.nil_append] at g1 g2 g3
+    simp only [List.reverse_cons, List.reverse_nil, List.nil_append, List.cons_append, hhi]
+    exact ⟨fun _ => ⟨g2, g3⟩, fun h => by omega⟩
+  | r0 :: r1 :: r2 :: rest, hl, hh, _ =>
+    have h0 : r0 ≠ 0 := by simpa using hh
+    rw [AllLt_cons, AllLt_cons] at hl
+    have hlo : AllLt (r2 :: rest).reverse := AllLt_reverse.mpr hl.2.2
+    obtain ⟨g1, g2, g3⟩ := hi64_general hlo h0 hl.1 hl.2.1
+    have hx : (r0 :: r1 :: r2 :: rest).reverse = (r2 :: rest).reverse ++ [r1, r0] := by
+      simp
+    have hhi : hi64 ((r2 :: rest).reverse ++ [r1, r0]) =
+        ((u64ToHi64_2 r0 r1).1, (u64ToHi64_2 r0 r1).2 || ((r2 :: rest).reverse).any (· != 0)) := by
+      unfold hi64
+      rw [← hx, List.reverse_reverse]
+      simp only [nonzero, List.length_reverse, List.length_cons]
+      congr 2
+      rw [hx, List.take_left' (by simp)]
+    rw [hx, hhi]
+    exact ⟨fun _ => ⟨g2, g3⟩, fun h => by omega⟩
+
+theorem hi64_spec {x : Big} (hx : AllLt x) (hn : isNormalized x = true) (hne : x ≠ []) :
+    (64 ≤ bitLength x →
+      (hi64 x).1 = toNat x / 2 ^ (bitLength x - 64) ∧
+      (hi64 x).2 = decide (toNat x % 2 ^ (bitLength x - 64) ≠ 0)) ∧
+    (bitLength x < 64 →
+      (hi64 x).1 = toNat x * 2 ^ (64 - bitLength x) ∧ (hi64 x).2 = false) := by
+  have := hi64_rev_spec x.reverse (AllLt_reverse.mpr hx)
+    (by rw [List.head?_reverse]; exact isNormalized_iff.mp hn) (by simpa using hne)
+  rwa [List.reverse_reverse] at this
+
+/-- `pow` with an arbitrary description `V` of the value after the large-power stage -/
+theorem pow_spec_gen {cap : Option Nat} {T : PowTables} (hT : T.compact = false → PowTablesOK T)
+    {x r : Big} {e V : Nat}
+    (hstage : ∀ x1 e1, (if T.compact then some (x, e) else powLargeLoop cap T (e + 1) x e)
+        = some (x1, e1) → toNat x1 * 5 ^ e1 = V ∧ AllLt x1 ∧ capOk cap x1.length = true)
+    (h : pow cap T x e = some r) :
+    toNat r = V ∧ AllLt r ∧ capOk cap r.length = true := by
+  unfold pow at h
+  simp only at h
+  split at h
+  · simp at h
+  · next x1 e1 h1 =>
+    obtain ⟨a1, a2, a3⟩ := hstage x1 e1 h1
+    split at h
+    · simp at h
+    · next x2 e2 h2 =>
+      obtain ⟨b1, b2, b3, b4, b5⟩ := powSmallLoop_spec _ a2 a3 h2
+      have he2 : e2 < 27 := b5 (by omega)
+      split at h
+      · next hne =>
+        rw [intPow5_eq hT he2] at h
+        obtain ⟨c1, c2, c3, _⟩ := smallMul_spec b2 (five_pow_lt (by omega)) b3 h
+        exact ⟨by rw [c1, b1, a1], c2, c3⟩
+      · next hz =>
+        simp only [ne_eq, Decidable.not_not] at hz
+        simp only [Option.some.injEq] at h
+        subst h
+        subst hz
+        exact ⟨by rw [← a1, ← b1]; simp, b2, b3⟩
+
+theorem largeMul_nil_left {cap : Option Nat} {P r : Big} (hlen : P.length ≠ 1)
+    (h : largeMul cap [] P = some r) : r = normalize P ∧ capOk cap P.length = true := by
+  unfold largeMul at h
+  split at h
+  · simp at hlen
+  · unfold longMul at h
+    split at h
+    · simp at h
+    · next z0 h0 =>
+      obtain ⟨rfl, hc⟩ := vecTryFrom_some h0
+      simp only [Option.some.injEq] at h
+      exact ⟨h.symm, hc⟩
+
+/-- What `pow` computes on the EMPTY vector (value 0) in a non-compact build once `e` reaches the
+    large-power step: the first `large_mul` replaces the empty vector by `LARGE_POW5`, so the
+    result is `5^e` instead of `0`. -/
+theorem pow_empty_large {cap : Option Nat} {T : PowTables} (hT : PowTablesOK T)
+    (hcm : T.compact = false) (hlen : T.largePow5.length ≠ 1) (hs : T.largePow5Step ≠ 0)
+    {e : Nat} {r : Big} (he : T.largePow5Step ≤ e) (h : pow cap T [] e = some r) :
+    toNat r = 5 ^ e ∧ AllLt r ∧ capOk cap r.length = true := by
+  refine pow_spec_gen (fun _ => hT) ?_ h
+  intro x1 e1 h1
+  rw [hcm] at h1
+  simp only [Bool.false_eq_true, if_false] at h1
+  have hcond : T.largePow5Step ≠ 0 ∧ e ≥ T.largePow5Step := ⟨hs, he⟩
+  rw [powLargeLoop, if_pos hcond] at h1
+  split at h1
+  · simp at h1
+  · next x' hx' =>
+    obtain ⟨rfl, hc⟩ := largeMul_nil_left hlen hx'
+    have hv : toNat (normalize T.largePow5) = 5 ^ T.largePow5Step := by
+      rw [normalize_toNat, hT.large_val]
+    have hnz : toNat (normalize T.largePow5) ≠ 0 := by
+      rw [hv]; exact (Nat.pow_pos (by omega)).ne'
+    obtain ⟨a, b, _, d, _⟩ := powLargeLoop_spec hT _ (normalize_allLt hT.large_lt) hnz
+      (normalize_capOk hc) h1
+    refine ⟨?_, b, d⟩
+    rw [a, hv, ← Nat.pow_add]; congr 1; omega
+
+/-- the 64-bit value returned by `hi64` has its top bit set (and fits 64 bits) -/
+theorem hi64_top_bit {x : Big} (hx : AllLt x) (hn : isNormalized x = true) (hne : x ≠ []) :
+    2 ^ 63 ≤ (hi64 x).1 ∧ (hi64 x).1 < 2 ^ 64 := by
+  have hbl := bitLength_spec hx hn hne
+  have hN : toNat x ≠ 0 := (toNat_pos_of_normalized hn hne).ne'
+  have h1 := Nat.log2_self_le hN
+  have h2 := @Nat.lt_log2_self (toNat x)
+  obtain ⟨s1, s2⟩ := hi64_spec hx hn hne
+  by_cases hge : 64 ≤ bitLength x
+  · rw [(s1 hge).1]
+    have e1 : (2 : Nat) ^ 63 * 2 ^ (bitLength x - 64) = 2 ^ Nat.log2 (toNat x) := by
+      rw [← Nat.pow_add]; congr 1; omega
+    have e2 : (2 : Nat) ^ 64 * 2 ^ (bitLength x - 64) = 2 ^ (Nat.log2 (toNat x) + 1) := by
+      rw [← Nat.pow_add]; congr 1; omega
+    constructor
+    · rw [Nat.le_div_iff_mul_le (Nat.two_pow_pos _), e1]; exact h1
+    · rw [Nat.div_lt_iff_lt_mul (Nat.two_pow_pos _), e2]; exact h2
+  · have hlt : bitLength x < 64 := by omega
+    rw [(s2 hlt).1]
+    have e1 : (2 : Nat) ^ 63 = 2 ^ Nat.log2 (toNat x) * 2 ^ (64 - bitLength x) := by
+      rw [← Nat.pow_add]; congr 1; omega
+    have e2 : (2 : Nat) ^ 64 = 2 ^ (Nat.log2 (toNat x) + 1) * 2 ^ (64 - bitLength x) := by
+      rw [← Nat.pow_add]; congr 1; omega
+    rw [e1, e2]
+    exact ⟨Nat.mul_le_mul_right _ h1, Nat.mul_lt_mul_of_pos_right h2 (Nat.two_pow_pos _)⟩
+
+-- ---------------------------------------------------------------- heap back-end never fails
+theorem smallAddFrom_heap (x : Big) (y s : Nat) : ∃ r, smallAddFrom none x y s = some r := by
+  unfold smallAddFrom vecTryPush
+  simp only [capOk_none, if_true]
+  split <;> exact ⟨_, rfl⟩
+
+theorem smallMul_heap (x : Big) (y : Nat) : ∃ r, smallMul none x y = some r := by
+  unfold smallMul vecTryPush
+  simp only [capOk_none, if_true]
+  split <;> exact ⟨_, rfl⟩
+
+theorem largeAddFrom_heap (x y : Big) (s : Nat) : ∃ r, largeAddFrom none x y s = some r := by
+  unfold largeAddFrom vecTryResize
+  simp only [capOk_none, if_true]
+  split
+  · next h => split at h <;> simp at h
+  · split
+    · exact smallAddFrom_heap _ _ _
+    · exact ⟨_, rfl⟩
+
+theorem longMulLoop_heap (x : Big) : ∀ (ys : List Nat) (i : Nat) (z : Big),
+    ∃ r, longMulLoop none x ys i z = some r := by
+  intro ys
+  induction ys with
+  | nil => intro i z; exact ⟨z, rfl⟩
+  | cons yi ys ih =>
+    intro i z
+    simp only [longMulLoop, vecTryFrom, vecTryExtend, capOk_none, if_true, List.nil_append]
+    split
+    · obtain ⟨zi, hzi⟩ := smallMul_heap x yi
+      rw [hzi]
+      obtain ⟨z', hz'⟩ := largeAddFrom_heap z zi i
+      simp only [hz']
+      exact ih _ _
+    · exact ih _ _
+
+theorem longMul_heap (x y : Big) : ∃ r, longMul none x y = some r := by
+  unfold longMul
+  simp only [vecTryFrom, vecTryExtend, capOk_none, if_true, List.nil_append]
+  cases y with
+  | nil => exact ⟨_, rfl⟩
+  | cons y0 ys =>
+    obtain ⟨z1, hz1⟩ := smallMul_heap x y0
+    simp only [hz1]
+    obtain ⟨z, hz⟩ := longMulLoop_heap x ys 1 z1
+    simp only [hz]
+    exact ⟨_, rfl⟩
+
+theorem largeMul_heap (x y : Big) : ∃ r, largeMul none x y = some r := by
+  unfold largeMul
+  split
+  · exact smallMul_heap _ _
+  · exact longMul_heap _ _
+
+theorem shlBits_heap (x : Big) (n : Nat) : ∃ r, shlBits none x n = some r := by
+  unfold shlBits vecTryPush
+  simp only [capOk_none, if_true]
+  split <;> exact ⟨_, rfl⟩
+
+theorem shlLimbs_heap (x : Big) (n : Nat) : ∃ r, shlLimbs none x n = some r := by
+  unfold shlLimbs
+  simp only [capOk_none, Bool.not_true, Bool.false_eq_true, if_false]
+  split <;> exact ⟨_, rfl⟩
+
+theorem shl_heap (x : Big) (n : Nat) : ∃ r, shl none x n = some r := by
+  unfold shl
+  simp only
+  split
+  · next h =>
+    split at h
+    · obtain ⟨r, hr⟩ := shlBits_heap x (n % 64); rw [hr] at h; simp at h
+    · simp at h
+  · split
+    · exact shlLimbs_heap _ _
+    · exact ⟨_, rfl⟩
+
+theorem powLargeLoop_heap (T : PowTables) : ∀ (fuel : Nat) (x : Big) (e : Nat),
+    ∃ r, powLargeLoop none T fuel x e = some r := by
+  intro fuel
+  induction fuel with
+  | zero => intro x e; exact ⟨_, rfl⟩
+  | succ fuel ih =>
+    intro x e
+    simp only [powLargeLoop]
+    split
+    · obtain ⟨x', hx'⟩ := largeMul_heap x T.largePow5
+      simp only [hx']
+      exact ih _ _
+    · exact ⟨_, rfl⟩
+
+theorem powSmallLoop_heap : ∀ (fuel : Nat) (x : Big) (e : Nat),
+    ∃ r, powSmallLoop none fuel x e = some r := by
+  intro fuel
+  induction fuel with
+  | zero => intro x e; exact ⟨_, rfl⟩
+  | succ fuel ih =>
+    intro x e
+    simp only [powSmallLoop]
+    split
+    · obtain ⟨x', hx'⟩ := smallMul_heap x (5 ^ 27)
+      simp only [hx']
+      exact ih _ _
+    · exact ⟨_, rfl⟩
+
+theorem pow_heap_total (T : PowTables) (x : Big) (e : Nat) : ∃ r, pow none T x e = some r := by
+  unfold pow
+  simp only
+  have h1 : ∃ p, (if T.compact then some (x, e) else powLargeLoop none T (e + 1) x e) = some p := by
+    split
+    · exact ⟨_, rfl⟩
+    · exact powLargeLoop_heap T _ _ _
+  obtain ⟨⟨x1, e1⟩, h1⟩ := h1
+  rw [h1]
+  simp only
+  obtain ⟨⟨x2, e2⟩, h2⟩ := powSmallLoop_heap (e1 + 1) x1 e1
+  rw [h2]
+  simp only
+  split
+  · exact smallMul_heap _ _
+  · exact ⟨_, rfl⟩
+
+theorem bigintPow_heap_total (T : PowTables) (x : Big) (base e : Nat) :
+    ∃ r, bigintPow none T x base e = some r := by
+  unfold bigintPow
+  have h1 : ∃ x1, (if base % 5 = 0 then pow none T x e else some x) = some x1 := by
+    split
+    · exact pow_heap_total T x e
+    · exact ⟨_, rfl⟩
+  obtain ⟨x1, h1⟩ := h1
+  rw [h1]
+  simp only
+  split
+  · exact shl_heap _ _
+  · exact ⟨_, rfl⟩
 
 end MinLex
